@@ -207,18 +207,26 @@ def gen_config(rng):
             pw[k] = 0
         elif r > 0.85:
             pw[k] *= 3
+    init_is = None
+    if rng.random() < 0.2 and not (cls in TPL and spec["opt"].get("len_low", 0) > 0):
+        # construct through `integral_scale=` (then `len_scale` is derived numerically)
+        init_is = rng.choice(cm.LEN_GRID)
     return {"n_ops": rng.randint(3, 12), "model": spec, "weights": w, "param_weights": pw,
-            "faults": faults}
+            "faults": faults, "init_integral_scale": init_is}
 
 
-def build_from(spec):
+def build_from(spec, integral_scale=None):
     cls = getattr(gs, spec["cls"])
+    if integral_scale is not None:
+        spec = dict(spec, len_scale=1.0)
     kw = dict(dim=spec["dim"], var=spec["var"], len_scale=spec["len_scale"],
               nugget=spec["nugget"], anis=list(spec["anis"]) if spec["anis"] else 1.0,
               angles=list(spec["angles"]) if spec["angles"] else 0.0,
               latlon=spec.get("latlon", False), temporal=spec.get("temporal", False),
               geo_scale=spec.get("geo_scale", 1.0), rescale=spec.get("rescale"))
     kw.update(spec["opt"])
+    if integral_scale is not None:
+        kw["integral_scale"] = integral_scale
     return cls(**kw)
 
 
@@ -238,7 +246,23 @@ class Machine:
         self.cfg = config
         self.ctx = ctx
         self.spec0 = cm.spec_copy(config["model"])
-        self.m = build_from(self.spec0)
+        self.m = None
+        self.obs = 0
+        isc = config.get("init_integral_scale")
+        if isc is not None:
+            try:
+                self.m = build_from(self.spec0, integral_scale=isc)
+            except ValueError:
+                self.m = None  # integral scale not settable for this model: plain construction
+                ctx.probe("integral_scale_refused")
+            if self.m is not None:
+                got = float(self.m.integral_scale)
+                if not np.isclose(got, isc, rtol=2e-3):
+                    raise Violation("C14.integral_scale_post", want=isc, got=got, after="init")
+                self.spec0["len_scale"] = float(self.m.len_scale)  # numerically derived: adopt
+                ctx.probe("constructed_with_integral_scale")
+        if self.m is None:
+            self.m = build_from(self.spec0)
         self.ref = Ref(self.spec0)
         self.poison = set()
         self.check_all("init")
@@ -283,6 +307,25 @@ class Machine:
             hi = min(hi, hi0)
             if not hi - lo >= 0.05 * max(1.0, abs(lo)):
                 lo, hi = lo0, hi0
+            if rng.random() < 0.35:
+                # several parameters in ONE call, in a seeded keyword order, each excluding the
+                # current value (documented: the variance is reset last)
+                many = rng.sample(cands, min(len(cands), rng.randint(2, 3)))
+                multi = []
+                for q in many:
+                    cq = {"var": r.var, "len_scale": r.len_scale, "nugget": r.nugget}.get(
+                        q, r.opt.get(q))
+                    if q == "anis":
+                        cq = max(r.anis or [1.0])
+                    bq = r.bounds(q) or default_opt_bounds(r.cls, r.dim).get(q)
+                    lo_q = max(bq[0], cq * rng.choice([1.5, 3.0]) + 0.1) if rng.random() < 0.7 \
+                        else max(bq[0], cq * 0.5)
+                    hi_q = min(bq[1], lo_q * 4 + 1.0)
+                    if not hi_q - lo_q >= 0.05 * max(1.0, abs(lo_q)):
+                        lo_q, hi_q = bq[0], bq[1]
+                    bt = bq[2] if len(bq) > 2 else "cc"
+                    multi.append([q, [float(lo_q), float(hi_q), bt]])
+                return {"op": "bounds", "check": True, "param": "multi", "multi": multi}
             typ = rng.choice(["oo", "cc", "oc", "co", None])
             # narrowing only: an endpoint shared with the default keeps the default's type
             btyp = base[2] if len(base) > 2 else "cc"
@@ -591,7 +634,68 @@ class Machine:
         else:
             self.m.len_scale = r.len_scale
 
+    def _bounds_multi(self, op):
+        r = self.ref
+        if self.poison:
+            raise Inapplicable("poisoned")
+        items = [(q, list(b)) for q, b in op["multi"]]
+        names = [q for q, _ in items]
+        if len(set(names)) != len(names):
+            raise Inapplicable("duplicate parameter")
+        for q, b in items:
+            if q not in ("var", "len_scale", "nugget", "anis") and q not in r.opt:
+                raise Inapplicable("no such parameter")
+            if not b[0] < b[1]:
+                raise Inapplicable("bounds")
+            if q == "anis" and (r.latlon and not in_bounds(1.0, b) or r.dim == 1):
+                raise Inapplicable("anis bounds not applicable")
+        trial = copy.deepcopy(r)
+        # documented semantics: every parameter is checked against its new bounds and moved to
+        # the default inside them if necessary; the variance is handled last
+        order = [it for it in items if it[0] != "var"] + [it for it in items if it[0] == "var"]
+        for q, b in order:
+            trial.user_bounds[q] = b
+            cur = {"var": trial.var, "len_scale": trial.len_scale, "nugget": trial.nugget,
+                   "anis": trial.anis}.get(q, trial.opt.get(q))
+            if not in_bounds(cur, b):
+                d = default_from_bounds(b)
+                if q == "var":
+                    trial.var_raw = d / trial.factor()
+                elif q == "len_scale":
+                    trial.len_scale = d
+                elif q == "nugget":
+                    trial.nugget = d
+                elif q == "anis":
+                    trial.anis = [d] * (trial.dim - 1)
+                    trial._fix_geo()
+                else:
+                    trial.opt[q] = d
+                self.ctx.probe("bounds.value_moved")
+        if not self._ref_in_bounds(trial):
+            raise Inapplicable("a derived value would leave its bounds")
+        # intermediate states must be legal too (each setter checks all bounds): only the
+        # documented 'var last' order is promised, so require that the other parameters do not
+        # push a TPL variance out of its *old* bounds on the way
+        try:
+            self.m.set_arg_bounds(check_args=True, **{q: b for q, b in items})
+        except ValueError as e:
+            if r.cls in TPL:
+                self._resync_after_failed_bounds()
+                raise Inapplicable("TPL variance left its bounds on the way: %s" % str(e)[:60])
+            raise Violation("C14.set_arg_bounds_raised", param="multi", bounds=items,
+                            error=str(e)[:120])
+        self.ctx.probe("bounds.multi")
+        self.ref = trial
+
+    def _resync_after_failed_bounds(self):
+        """A failed multi-bound call leaves a half-updated model: the user builds a new one."""
+        spec = readback(self.m, self.spec0)
+        self.m = build_from(self.spec0)
+        self.ref = Ref(self.spec0)
+
     def _bounds(self, op):
+        if op.get("param") == "multi":
+            return self._bounds_multi(op)
         p, b, check = op["param"], list(op["bounds"]), op["check"]
         r = self.ref
         if self.poison:
@@ -795,6 +899,20 @@ class Machine:
                 if not close(a, b, rtol=1e-9):
                     raise Violation("C14.direct_equal." + fn, after=after, maxdiff=maxdiff(a, b))
             ctx.note("vario", m.variogram(LAGS))
+            self.obs += 1
+            if after in ("init", "rescale", "integral_scale") or \
+                    str(after).startswith("opt:") or self.obs % 7 == 0:
+                try:
+                    a, b = float(m.integral_scale), float(direct.integral_scale)
+                except Exception:
+                    a = b = None
+                if a is not None and np.isfinite(b) and not close(a, b, rtol=1e-6):
+                    raise Violation("C14.direct_equal.integral_scale", after=after, got=a, fresh=b)
+                if a is not None and np.isfinite(a) and self.obs % 3 == 0:
+                    vec = np.array([a] + [a * x for x in m.anis])
+                    if not close(m.integral_scale_vec, vec, rtol=1e-6):
+                        raise Violation("C14.derived.integral_scale_vec", after=after)
+                ctx.probe("integral_scale_compared")
             pts = self._points(m)
             a, b = m.isometrize(pts), direct.isometrize(pts)
             if not close(a, b, rtol=1e-9):
